@@ -13,9 +13,11 @@
                            that child gets clauses[redefines] = its own name; append; bottom = node
      JSONSchemaMaker.build_json_schema
                            only the SHAPE: kind, title, anchor, cobol text, ordered properties,
-                           the REDEFINES-x oneOf inserted into the parent's properties,
-                           KeyError when the parent is an OCCURS array, ValueError for an
-                           elementary item without picture (calcsize).
+                           the REDEFINES-x oneOf inserted into names[parent.unique_name]
+                           (the maker's names dict and the shared mutable dicts are modelled by a
+                           heap of objects), KeyError when that dict has no properties key
+                           (an OCCURS array, an elementary item), ValueError for an elementary
+                           item without picture (calcsize).
 
    Strings are lists of code points.  A level is the pair of code points of its two characters,
    compared the way Python compares two-character strings.
@@ -217,90 +219,167 @@ Definition parents (f : list tree) : list (option nat) := parents_f None 0 f.
    (items.properties for an array; the alternatives, keyed by the empty string, for a oneOf) *)
 Inductive snode := SN (kind : N) (title anchor cobol : option str) (props : list (str * snode)).
 
-Definition s_oneof_add (alt : snode) (s : snode) : snode :=
-  match s with SN k t a c props => SN k t a c (props ++ [([], alt)]) end.
+(* The schema maker works on mutable dicts that are shared by reference: the REDEFINES branch
+   mutates names[parent.unique_name], whichever dict that is at the time.  The model therefore
+   keeps a heap of schema objects (object id = position) whose properties refer to ids, and the
+   maker's names dict (unique_name to id, last assignment wins: new bindings are put in front).
+   Only an object of kind 0 has a properties key; only kind 3 has a oneOf key. *)
+Record sobj := { okind : N; otitle : option str; oanchor : option str; ocobol : option str;
+                 oprops : list (str * nat) }.
+Record mst := { heap : list sobj; names : list (str * nat) }.
 
-Fixpoint has_key (key : str) (props : list (str * snode)) : bool :=
-  match props with
-  | [] => false
-  | (k, _) :: r => str_eqb k key || has_key key r
+Definition dummy_obj : sobj := {| okind := 9; otitle := None; oanchor := None; ocobol := None; oprops := [] |}.
+Definition hget (id : nat) (s : mst) : sobj := nth id (heap s) dummy_obj.
+
+Fixpoint list_upd {A} (i : nat) (f : A -> A) (l : list A) : list A :=
+  match l with
+  | [] => []
+  | x :: r => match i with O => f x :: r | S j => x :: list_upd j f r end
+  end.
+
+Definition hupd (id : nat) (f : sobj -> sobj) (s : mst) : mst :=
+  {| heap := list_upd id f (heap s); names := names s |}.
+Definition alloc (o : sobj) (s : mst) : nat * mst :=
+  (length (heap s), {| heap := heap s ++ [o]; names := names s |}).
+(* self.names[key] = object *)
+Definition reg (key : str) (id : nat) (s : mst) : mst :=
+  {| heap := heap s; names := (key, id) :: names s |}.
+
+Fixpoint lookup (key : str) (d : list (str * nat)) : option nat :=
+  match d with
+  | [] => None
+  | (k, v) :: r => if str_eqb k key then Some v else lookup key r
   end.
 
 (* d[key] = v on an insertion-ordered dict *)
-Fixpoint dict_set (key : str) (v : snode) (props : list (str * snode)) : list (str * snode) :=
-  match props with
+Fixpoint dict_set (key : str) (v : nat) (d : list (str * nat)) : list (str * nat) :=
+  match d with
   | [] => [(key, v)]
   | (k, old) :: r => if str_eqb k key then (k, v) :: r else (k, old) :: dict_set key v r
   end.
 
-Fixpoint dict_upd (key : str) (f : snode -> snode) (props : list (str * snode)) : list (str * snode) :=
-  match props with
-  | [] => []
-  | (k, old) :: r => if str_eqb k key then (k, f old) :: r else (k, old) :: dict_upd key f r
-  end.
+Definition set_props (f : list (str * nat) -> list (str * nat)) (o : sobj) : sobj :=
+  {| okind := okind o; otitle := otitle o; oanchor := oanchor o; ocobol := ocobol o; oprops := f (oprops o) |}.
+Definition set_anchor (a : option str) (o : sobj) : sobj :=
+  {| okind := okind o; otitle := otitle o; oanchor := a; ocobol := ocobol o; oprops := oprops o |}.
 
 Definition cobol_of (d : dde) : str := [fst (dlv d); snd (dlv d); 32%N] ++ etext (de d).
 
-Definition ref_node (d : dde) : snode :=
-  SN 4 (Some (dde_name (de d))) (Some (35%N :: du d)) (Some (cobol_of d)) [].
+(* REDEFINES branch, before the alternative is built:
+     parent_schema = self.names[parent.unique_name]
+     if base_def_name not in parent_schema[properties]: parent_schema[properties][base_def_name] = new oneOf
+   answer: the id of parent_schema *)
+Definition redef_pre (parent_uname tgt : str) (s : mst) : res (nat * mst) :=
+  match lookup parent_uname (names s) with
+  | None => Err KeyError
+  | Some pid =>
+      let po := hget pid s in
+      if (okind po =? 0)%N then
+        let key := REDEFINES_dash ++ tgt in
+        match lookup key (oprops po) with
+        | Some _ => Ok (pid, s)
+        | None =>
+            let (oid, s1) := alloc {| okind := 3; otitle := None; oanchor := Some key; ocobol := None; oprops := [] |} s in
+            Ok (pid, hupd pid (set_props (dict_set key oid)) s1)
+        end
+      else Err KeyError
+  end.
 
-(* build_json_schema(node, ignore_redefines=True), also the call on a root (no parent) *)
-Fixpoint build (t : tree) : res snode :=
+(* REDEFINES branch, after the alternative rid is built:
+     parent_schema[properties][base_def_name][oneOf].append(redef); return the ref placeholder *)
+Definition redef_post (pid : nat) (tgt : str) (rid : nat) (d : dde) (s : mst) : res (nat * mst) :=
+  let key := REDEFINES_dash ++ tgt in
+  match lookup key (oprops (hget pid s)) with
+  | None => Err KeyError
+  | Some oid =>
+      if (okind (hget oid s) =? 3)%N then
+        let s1 := hupd oid (set_props (fun ps => ps ++ [([], rid)])) s in
+        Ok (alloc {| okind := 4; otitle := Some (dde_name (de d)); oanchor := Some (35%N :: du d);
+                     ocobol := Some (cobol_of d); oprops := [] |} s1)
+      else Err KeyError
+  end.
+
+(* build_json_schema(node, ignore_redefines=True), also the call on a root (no parent);
+   answer: the id of the returned dict *)
+Fixpoint build (t : tree) (s : mst) : res (nat * mst) :=
   match t with
   | TNode d _ kids =>
       let title := Some (dde_name (de d)) in
       let cobol := Some (cobol_of d) in
+      (* build_json_schema(k) for a child k of this node *)
+      let child := fun (bk : mst -> res (nat * mst)) (k : tree) (s : mst) =>
+        match eff_redef k with
+        | Some tgt =>
+            match redef_pre (du d) tgt s with
+            | Err e => Err e
+            | Ok (pid, s1) =>
+                match bk s1 with
+                | Err e => Err e
+                | Ok (rid, s2) => redef_post pid tgt rid (troot k) s2
+                end
+            end
+        | None => bk s
+        end in
       if eocc (de d) then
+        let (id, s1) := alloc {| okind := 1; otitle := title; oanchor := None; ocobol := cobol; oprops := [] |} s in
+        let s2 := reg (du d) id s1 in
         if epic (de d) then
-          Ok (SN 1 title None cobol [(du d, SN 2 None (Some (du d)) cobol [])])
+          let (iid, s3) := alloc {| okind := 2; otitle := None; oanchor := Some (du d); ocobol := cobol; oprops := [] |} s2 in
+          Ok (id, reg (du d) id (hupd id (set_props (fun _ => [(du d, iid)])) s3))
         else
-          (* dict comprehension over the children; a child with a redefines clause looks up
-             properties in this array schema: KeyError *)
-          match (fix occ (ks : list tree) (props : list (str * snode)) : res (list (str * snode)) :=
+          let s3 := hupd id (set_anchor (Some (du d))) s2 in
+          (* dict comprehension over the children, assigned to items afterwards *)
+          match (fix occ (ks : list tree) (acc : list (str * nat)) (s : mst) : res (list (str * nat) * mst) :=
                    match ks with
-                   | [] => Ok props
+                   | [] => Ok (acc, s)
                    | k :: ks' =>
-                       match eff_redef k with
-                       | Some _ => Err KeyError
-                       | None => match build k with
-                                 | Ok s => occ ks' (dict_set (du (troot k)) s props)
-                                 | Err e => Err e
-                                 end
+                       match child (build k) k s with
+                       | Ok (cid, s') => occ ks' (dict_set (du (troot k)) cid acc) s'
+                       | Err e => Err e
                        end
-                   end) kids [] with
-          | Ok props => Ok (SN 1 title (Some (du d)) cobol props)
+                   end) kids [] s3 with
+          | Ok (props, s4) => Ok (id, reg (du d) id (hupd id (set_props (fun _ => props)) s4))
           | Err e => Err e
           end
       else
         match kids with
         | _ :: _ =>
-            match (fix grp (ks : list tree) (props : list (str * snode)) : res (list (str * snode)) :=
+            let (id, s1) := alloc {| okind := 0; otitle := title; oanchor := Some (du d); ocobol := cobol; oprops := [] |} s in
+            let s2 := reg (du d) id s1 in
+            match (fix grp (ks : list tree) (s : mst) : res mst :=
                      match ks with
-                     | [] => Ok props
+                     | [] => Ok s
                      | k :: ks' =>
-                         match eff_redef k with
-                         | Some tgt =>
-                             let key := REDEFINES_dash ++ tgt in
-                             let props1 := if has_key key props then props
-                                           else dict_set key (SN 3 None (Some key) None []) props in
-                             match build k with
-                             | Ok alt =>
-                                 grp ks' (dict_set (du (troot k)) (ref_node (troot k))
-                                            (dict_upd key (s_oneof_add alt) props1))
-                             | Err e => Err e
-                             end
-                         | None =>
-                             match build k with
-                             | Ok s => grp ks' (dict_set (du (troot k)) s props)
-                             | Err e => Err e
-                             end
+                         match child (build k) k s with
+                         | Ok (cid, s') => grp ks' (hupd id (set_props (dict_set (du (troot k)) cid)) s')
+                         | Err e => Err e
                          end
-                     end) kids [] with
-            | Ok props => Ok (SN 0 title (Some (du d)) cobol props)
+                     end) kids s2 with
+            | Ok s3 => Ok (id, reg (du d) id s3)
             | Err e => Err e
             end
-        | [] => if epic (de d) then Ok (SN 2 title (Some (du d)) cobol []) else Err ValueError
+        | [] =>
+            if epic (de d) then
+              let (id, s1) := alloc {| okind := 2; otitle := title; oanchor := Some (du d); ocobol := cobol; oprops := [] |} s in
+              Ok (id, reg (du d) id s1)
+            else Err ValueError
         end
+  end.
+
+(* the dict behind an id, as a tree; fuel = number of objects (there are no cycles: every dict is
+   stored exactly once, by the caller of the call that created it); kind 8 = out of fuel *)
+Fixpoint reify (fuel : nat) (s : mst) (id : nat) : snode :=
+  match fuel with
+  | O => SN 8 None None None []
+  | S f => let o := hget id s in
+           SN (okind o) (otitle o) (oanchor o) (ocobol o) (map (fun p => (fst p, reify f s (snd p))) (oprops o))
+  end.
+
+(* maker.jsonschema(record): names = {} *)
+Definition build_tree (t : tree) : res snode :=
+  match build t {| heap := []; names := [] |} with
+  | Ok (id, s) => Ok (reify (S (length (heap s))) s id)
+  | Err e => Err e
   end.
 
 (* list(schema_iter(text)) after structure(): one schema per tree, first error wins *)
@@ -308,7 +387,7 @@ Fixpoint build_all (f : list tree) : res (list snode) :=
   match f with
   | [] => Ok []
   | t :: f' =>
-      match build t with
+      match build_tree t with
       | Ok s => match build_all f' with Ok r => Ok (s :: r) | Err e => Err e end
       | Err e => Err e
       end
